@@ -30,94 +30,7 @@
 (*          time that records its arguments), "boom" (a registered test    *)
 (*          that raises), "nomod" / "notest" (unknown module / test name)  *)
 (***************************************************************************)
-EXTENDS QcTests, TLC
-
-MASKED == -1
-
-NRows(tb)   == Len(tb.t)
-InWin(tv, w) == (w[1] = NA \/ tv >= w[1]) /\ (w[2] = NA \/ tv < w[2])
-Covered(tb, w) == { i \in 1..NRows(tb) : InWin(tb.t[i], w) }
-Pick(s, S)  == IF s = <<>> THEN <<>>
-               ELSE LET idx == SetToSortSeq(S, <) IN [k \in 1..Len(idx) |-> s[idx[k]]]
-Rank(i, S)  == Cardinality({ j \in S : j <= i })
-
-RunFns      == Fns \cup {"probe", "boom"}
-Loadable(e) == e.fn \in RunFns                         \* module and test name exist
-HasStream(tb, e) == e.stream \in DOMAIN tb.data        \* the data has that stream id
-
-\* the direct call of the test on the window rows
-CallOn(tb, e, S) ==
-    [fn |-> e.fn, x |-> Pick(tb.data[e.stream], S), t |-> Pick(tb.t, S), z |-> Pick(tb.z, S),
-     lon |-> Pick(tb.lon, S), lat |-> Pick(tb.lat, S), hop |-> <<>>, p |-> e.p]
-
-MissingInput(tb, e) == e.fn = "dens" /\ tb.z = <<>>    \* the stream cannot supply a required input
-
-\* <<>> when the test produces no result (it raised), else << flags >>
-RunResult(tb, e, S) ==
-    IF e.fn = "boom" \/ MissingInput(tb, e) THEN <<>>
-    ELSE IF e.fn = "probe" THEN << [i \in 1..Cardinality(S) |-> GOOD] >>
-    ELSE LET r == Rule(CallOn(tb, e, S), FALSE) IN
-         IF r.ok THEN << [i \in 1..Len(r.flags) |-> CHOOSE f \in r.flags[i] : TRUE] >> ELSE <<>>
-
-MkYield(tb, e, w) ==
-    LET S == Covered(tb, w)
-        rr == RunResult(tb, e, S)
-    IN  [win |-> w, stream |-> e.stream, fn |-> e.fn, subset |-> S,
-         ok |-> rr # <<>>, flags |-> IF rr = <<>> THEN <<>> ELSE rr[1]]
-
-\* contexts with the same window (and region) are one group, in order of first appearance
-RECURSIVE DedupWins(_, _)
-DedupWins(cfg, seen) ==
-    IF cfg = <<>> THEN <<>>
-    ELSE IF Head(cfg).win \in seen THEN DedupWins(Tail(cfg), seen)
-    ELSE <<Head(cfg).win>> \o DedupWins(Tail(cfg), seen \cup {Head(cfg).win})
-
-EntriesOfWin(cfg, w) == FlattenSeq([k \in 1..Len(cfg) |-> IF cfg[k].win = w THEN cfg[k].entries ELSE <<>>])
-
-Yields(tb, cfg) ==
-    LET wins == DedupWins(cfg, {}) IN
-    FlattenSeq([g \in 1..Len(wins) |->
-        LET es == SelectSeq(EntriesOfWin(cfg, wins[g]), LAMBDA e : Loadable(e) /\ HasStream(tb, e))
-        IN  [k \in 1..Len(es) |-> MkYield(tb, es[k], wins[g])]])
-
------------------------------------------------------------------------------
-(* Accumulators: functions from key <<stream, fn>> to one entry per row    *)
-Key(y) == <<y.stream, y.fn>>
-
-ScatterOn(old, y, n) == [i \in 1..n |-> IF i \in y.subset THEN y.flags[Rank(i, y.subset)] ELSE old[i]]
-
-ScatterL(acc, y, n) ==
-    IF ~y.ok THEN acc
-    ELSE LET old == IF Key(y) \in DOMAIN acc THEN acc[Key(y)] ELSE [i \in 1..n |-> MASKED]
-         IN  (Key(y) :> ScatterOn(old, y, n)) @@ acc
-
-ScatterD(acc, y, n) ==
-    IF ~y.ok THEN acc
-    ELSE LET old == IF Key(y) \in DOMAIN acc THEN acc[Key(y)] ELSE [i \in 1..n |-> UNKNOWN]
-         IN  (Key(y) :> ScatterOn(old, y, n)) @@ acc
-
-RECURSIVE FoldL(_, _, _, _), FoldD(_, _, _, _)
-FoldL(acc, ys, order, n) == IF order = <<>> THEN acc ELSE FoldL(ScatterL(acc, ys[Head(order)], n), ys, Tail(order), n)
-FoldD(acc, ys, order, n) == IF order = <<>> THEN acc ELSE FoldD(ScatterD(acc, ys[Head(order)], n), ys, Tail(order), n)
-
-\* the order-free statement of C06: what each row of each key must hold at completion
-CoverAcc(ys, n, fill) ==
-    LET keys == { Key(ys[k]) : k \in { j \in 1..Len(ys) : ys[j].ok } } IN
-    [key \in keys |->
-        [i \in 1..n |->
-            LET cov == { k \in 1..Len(ys) : ys[k].ok /\ Key(ys[k]) = key /\ i \in ys[k].subset } IN
-            IF cov = {} THEN fill
-            ELSE LET k == CHOOSE k \in cov : TRUE IN ys[k].flags[Rank(i, ys[k].subset)]]]
-
-\* windows of one key are pairwise disjoint (the order-independence clause of C06 assumes it)
-DisjointYields(ys) ==
-    \A a, b \in 1..Len(ys) :
-        (a # b /\ ys[a].ok /\ ys[b].ok /\ Key(ys[a]) = Key(ys[b])) => ys[a].subset \cap ys[b].subset = {}
-
-\* C18: the configuration with every entry removed that cannot be loaded / found / run in its context
-Healthy(tb, e, w) == Loadable(e) /\ HasStream(tb, e) /\ RunResult(tb, e, Covered(tb, w)) # <<>>
-HealthyOnly(tb, cfg) ==
-    [k \in 1..Len(cfg) |-> [cfg[k] EXCEPT !.entries = SelectSeq(cfg[k].entries, LAMBDA e : Healthy(tb, e, cfg[k].win))]]
+EXTENDS PipelineOps
 
 -----------------------------------------------------------------------------
 VARIABLES table, config,
